@@ -132,6 +132,7 @@ var basicKinds = map[reflect.Kind]bool{
 	reflect.Float64:    true,
 	reflect.Complex64:  true,
 	reflect.Complex128: true,
+	reflect.String:     true,
 }
 
 func (d *Dumper) ValueLit(in any, optFns ...ValueLitOptFn) string {
@@ -162,7 +163,10 @@ func (d *Dumper) ValueLit(in any, optFns ...ValueLitOptFn) string {
 	case reflect.Ptr:
 		kind := rv.Elem().Kind()
 		if _, ok := basicKinds[kind]; ok {
-			return fmt.Sprintf("func(v %s) *%s { return &v }(%s)", kind, kind, d.ValueLit(rv.Elem(), optFns...))
+			// the pointed type could be named
+			elemType := d.ReflectTypeLit(tpe.Elem())
+
+			return fmt.Sprintf("func(v %s) *%s { return &v }(%s)", elemType, elemType, d.ValueLit(rv.Elem(), optFns...))
 		}
 		return fmt.Sprintf("&(%s)", d.ValueLit(rv.Elem(), optFns...))
 	case reflect.Struct:
